@@ -36,7 +36,44 @@ def load_catalogue():
     for p in sorted({m["prop"] for m in cat}):
         cat.append({"id": "%s-eq-rename-locals" % p.lower(), "prop": p, "kind": "equiv", "transform": "rename-locals", "edits": [],
                     "why": "every function-local name gets a suffix (and the tree is re-emitted): behaviour identical", "source": "builtin"})
+    for p in sorted({m["prop"] for m in cat if m.get("source") != "builtin"}):
+        cat.append({"id": "%s-eq-annotate-alias" % p.lower(), "prop": p, "kind": "equiv", "transform": "annotate-alias", "edits": [],
+                    "why": "type annotations on parameters/returns/first assignment of every function, `import numpy` -> `import numpy as np`", "source": "builtin"})
     return cat
+
+
+def annotate_alias_tree(dest):
+    import ast
+    import re
+    for dp, dn, fn in os.walk(os.path.join(dest, "hypnotoad")):
+        if "test_suite" in dp:
+            continue
+        for f in fn:
+            if not f.endswith(".py") or f.startswith("hypnotoad_"):
+                continue
+            p = os.path.join(dp, f)
+            with open(p) as fh:
+                src = fh.read()
+            if re.search(r"^import numpy$", src, flags=re.M):
+                src = re.sub(r"^import numpy$", "import numpy as np", src, flags=re.M)
+                src = re.sub(r"(?<![\w.])numpy\.", "np.", src)
+            try:
+                t = ast.parse(src)
+            except SyntaxError:
+                continue
+            obj = lambda: ast.Name(id="object", ctx=ast.Load())
+            for n in ast.walk(t):
+                if isinstance(n, ast.FunctionDef):
+                    n.returns = obj()
+                    for a in n.args.args:
+                        if a.arg != "self":
+                            a.annotation = obj()
+                    for i, st in enumerate(n.body):
+                        if isinstance(st, ast.Assign) and len(st.targets) == 1 and isinstance(st.targets[0], ast.Name):
+                            n.body[i] = ast.copy_location(ast.AnnAssign(target=st.targets[0], annotation=obj(), value=st.value, simple=1), st)
+                            break
+            with open(p, "w") as fh:
+                fh.write(ast.unparse(ast.fix_missing_locations(t)) + "\n")
 
 
 class _RenameLocals:
@@ -151,6 +188,8 @@ def run_one(m, root):
             reformat_tree(tmp)
         elif m.get("transform") == "rename-locals":
             reformat_tree(tmp, rename=True)
+        elif m.get("transform") == "annotate-alias":
+            annotate_alias_tree(tmp)
         env = dict(os.environ)
         env["VERIF_REPO"] = tmp
         env["HV_EVIDENCE_DIR"] = os.path.join(tmp, "_ev")
